@@ -25,7 +25,8 @@ def build_native(overlay_dir, example, log_path, release=False):
         if rc == 0 and os.path.exists(exe):
             return True, exe
         txt = open(log_path, errors='replace').read()
-        if re.search(r'^error(\[E\d+\])?: (?!could not compile)', txt, re.M) and 'signal: 9' not in txt and 'SIGKILL' not in txt:
+        transient = 'signal: 9' in txt or 'SIGKILL' in txt or 'failed to run `rustc`' in txt or 'Resource temporarily unavailable' in txt or 'Cannot allocate memory' in txt
+        if re.search(r'^error(\[E\d+\])?: (?!could not compile)', txt, re.M) and not transient:
             break          # a real compile error: retrying cannot help
         time.sleep(20)     # the compiler was killed / interrupted (memory pressure from other jobs): try again
     return False, exe
